@@ -724,3 +724,31 @@ func (f *fn) rangeWritten(s *ast.RangeStmt, t ty, mod map[string]bool, after fun
 	f.scope = f.scope[:base]
 	return r
 }
+
+// switchArm: which arm of `switch tag { case a, b: ..; case c: ..; default: .. }` is taken.
+func (f *fn) switchArm(s *ast.SwitchStmt) string {
+	t := f.typeOf(s.Tag)
+	if t.k != kInt && t.k != kBool {
+		f.fail(s, "switch on a value outside the fragment")
+	}
+	v := f.expr(s.Tag)
+	out := f.takePre() + "let tag : " + f.lean(t) + " := " + v + "\n"
+	def, tail := 0, ""
+	for i, c := range s.Body.List {
+		cc := c.(*ast.CaseClause)
+		if cc.List == nil {
+			def = i + 1
+			continue
+		}
+		var cs []string
+		for _, e := range cc.List {
+			cs = append(cs, "tag = "+paren(f.expr(e)))
+		}
+		if len(f.pre) > 0 {
+			f.fail(cc, "a case expression can panic")
+		}
+		out += fmt.Sprintf("if %s then %s else\n", strings.Join(cs, " ∨ "), f.ret([]string{fmt.Sprint(i + 1)}))
+	}
+	_ = tail
+	return out + f.ret([]string{fmt.Sprint(def)})
+}
